@@ -21,10 +21,16 @@ def _tok_class(cfg, hdr, tok, tok2):
         return "empty" if tok == "" else "any"
     if tok == cfg:
         return "exact"
-    if hdr == "two" and tok2 == cfg and cfg != "":
+    if hdr == "two" and tok2 == cfg:
         return "second-value"
     if tok == "":
         return "empty"
+    if tok.strip() == "":
+        return "whitespace-only"
+    if tok == cfg.strip():
+        return "trimmed"
+    if tok.strip() == cfg or tok.strip() == cfg.strip():
+        return "exact-plus-whitespace"
     if cfg.startswith(tok):
         return "prefix"
     if tok.startswith(cfg):
@@ -34,8 +40,23 @@ def _tok_class(cfg, hdr, tok, tok2):
     return "other"
 
 
-NEED_SET = {"none", "empty", "prefix", "extension", "case-variant", "exact", "second-value", "other"}
-NEED_EMPTY = {"none", "empty", "any"}
+CFG_CLASSES = {"empty", "ordinary", "whitespace-only", "outer-whitespace", "inner-whitespace", "long", "non-ascii"}
+
+
+def _need(cfg):
+    """request-token classes that exist for this configured token"""
+    if cfg == "":
+        return {"none", "empty", "any"}
+    need = {"none", "empty", "exact", "second-value", "extension", "other"}
+    if cfg.strip() != "":
+        need |= {"whitespace-only", "exact-plus-whitespace"}
+    if cfg.strip() != cfg and cfg.strip() != "":
+        need.add("trimmed")
+    if len(cfg) >= 2 and cfg[:-1].strip() != "" and cfg[:-1] != cfg.strip():
+        need.add("prefix")
+    if cfg.lower() != cfg.upper():
+        need.add("case-variant")
+    return need
 
 
 def _case_summary(c):
@@ -83,32 +104,35 @@ def custom(vc, spec, tier, seed, replay):
         return rc
     cov = ev["coverage"]
     routes = re.findall(r'"([^"]+)"', cov.get("facts", {}).get("queryRoutes", ""))
-    complete = {"set": 0, "empty": 0}
+    complete = {}
     incomplete = 0
     paths = set()
     wd = spec["property"] + ("" if vc.REPO == "/repo" else "-" + hashlib.sha1(vc.REPO.encode()).hexdigest()[:10])
     for trf in glob.glob(os.path.join(vc.CACHE, "run", wd, "s*.tr")):   # this run's transcripts (same naming as vcheck's workdir)
         for c in vc.parse_cases(open(trf).read()):
             cfg, per, nd, ne, nds = _case_summary(c)
-            need = NEED_EMPTY if cfg == "" else NEED_SET
+            need = _need(cfg)
+            cls = _kv(c["header"].split(" "), "cls") or "?"
             ok = bool(routes) and all(
                 r in per and all(need <= classes for classes in per[r].values()) and
                 ("{format}" not in r or len(per[r]) >= 5) for r in routes)
             if ok:
-                complete["empty" if cfg == "" else "set"] += 1
+                complete[cls] = complete.get(cls, 0) + 1
                 for r in per:
                     paths.update(per[r])
             else:
                 incomplete += 1
-    cov["exhaustive"] = bool(routes and complete["set"] > 0 and complete["empty"] > 0 and incomplete == 0
+    cov["exhaustive"] = bool(routes and CFG_CLASSES <= set(complete) and incomplete == 0
                              and not replay and not cov.get("broken"))
     cov["grid"] = {"routes_walked": routes, "concrete_paths": sorted(paths),
-                   "cases_complete_token_configured": complete["set"], "cases_complete_no_token_configured": complete["empty"],
+                   "cases_complete_by_configured_token_class": complete,
                    "cases_incomplete": incomplete,
                    "space": "every leaf route of the real mux whose template starts with /query x every instantiation "
                             "({format}: json, yaml, toml, JSON, xml; {traceID}: a trace of each shard) x request token "
-                            "{no header, empty, proper prefix, extension, case variant, other, exact, exact as second value} "
-                            "x configured token {empty, non-empty}"}
+                            "{no header, empty, whitespace-only, exact, exact plus leading/trailing whitespace, trimmed variant, "
+                            "proper prefix, extension, case variant, other, exact as second value} x configured token "
+                            "{empty, ordinary, whitespace-only, leading/trailing whitespace, inner whitespace, very long, non-ASCII} "
+                            "(request classes that do not exist for a configured token, e.g. a case variant of blanks, are not required)"}
     vc.write_evidence(spec["property"], ev)
     return rc
 
@@ -119,13 +143,14 @@ SPEC = dict(
     props_module="Refinery.Props.C25",
     gen_module="Refinery.Gen.QueryAuth",
     custom=custom,
-    quick=dict(cases=40, len=1, shards=2),
-    thorough=dict(cases=16 * 60, len=1, shards=16),
+    quick=dict(cases=48, len=1, shards=2),
+    thorough=dict(cases=16 * 64, len=1, shards=16),
     nontrivial=nontrivial,
-    rule="a case = one configured token (even cases: none configured; odd cases: a random token of 2..40 characters drawn from "
-         "the seed) and the complete request grid: every /query leaf route found by walking the real mux x every format / shard "
+    rule="a case = one configured token, classes enumerated round-robin {empty, ordinary, whitespace-only, leading/trailing "
+         "whitespace, inner whitespace, very long (600-1500 chars), non-ASCII}, concrete token drawn from the seed, and the "
+         "complete request grid: every /query leaf route found by walking the real mux x every format / shard "
          "instantiation x every request-token class (no header, empty, proper prefixes, proper suffix, extensions, case variants, "
-         "trailing blank, different of equal length, exact, exact as second header value, exact as first of two); non-trivial = "
+         "whitespace-only tokens, exact plus leading/trailing whitespace, trimmed and whitespace-stripped variants, different of equal length, exact, exact as second header value, exact as first of two); non-trivial = "
          "at least 6 refusals and, when a token is configured, at least one data response that really contains the secrets "
          "(shard address, rule marker, config marker); distinct by transcript hash",
     trusted_base=["gorilla/mux routing and Walk, net/http/httptest (requests are served in-process by the handler LnS installed)",
